@@ -785,6 +785,14 @@ mod el {
                     second.fault = Some(FaultSpec::C2b(14 + rng.below(90)));
                     stats.add_extra("s3_second_failures_sampled", 1);
                 }
+                // sampled: the first reconnect attempt is refused at the MQTT level (e.g. a restarting broker); what was
+                // carried over must survive the refusal and be retransmitted once a later CONNACK reports the session
+                if rng.chance(1, 6) {
+                    let mut refused = ConnSpec::normal(false);
+                    refused.refuse_code = Some(if c.ver == "v5" { *rng.pick(&[0x88u8, 0x89]) } else { *rng.pick(&[3u8, 5]) });
+                    c.conns.push(refused);
+                    stats.add_extra("s3_refused_reconnects_sampled", 1);
+                }
                 c.conns.push(second);
                 c.conns.push(ConnSpec::normal(rng.chance(3, 4)));
                 c.conns.push(ConnSpec::normal(true));
